@@ -78,6 +78,8 @@ class Ctx:
         self.deadline = deadline
         self.worker_env = worker_env
         self._worker = None
+        self.auto_record = None     # (max requests, stride) — set by child_main for MEMCHECK modules
+        self._calls = 0
         self.evaluations = 0
         self.cov = {}            # covkey -> count (non-trivial only)
         self.trivial = 0
@@ -99,7 +101,14 @@ class Ctx:
         return self._worker
 
     def call(self, req, cpu_limit=20.0, wall_limit=300.0):
-        return self.worker.call(req, cpu_limit=cpu_limit, wall_limit=wall_limit)
+        resp = self.worker.call(req, cpu_limit=cpu_limit, wall_limit=wall_limit)
+        if self.auto_record and req.get("op") == "run" and "panic" not in resp:
+            # sample of the workload kept for the memcheck tier (every k-th accepted request, small ones)
+            self._calls += 1
+            if self._calls % self.auto_record[1] == 0 and len(self.recorded) < self.auto_record[0]:
+                if len(json.dumps(req)) < 20000:
+                    self.recorded.append(req)
+        return resp
 
     def stdlib(self):
         if self._stdlib is None:
@@ -164,6 +173,9 @@ def child_main(proc, mod_name, tier, seed, nprocs, budget_s, max_cases):
     mod = importlib.import_module(mod_name)
     deadline = time.monotonic() + budget_s
     ctx = Ctx(mod.ID, tier, seed, proc, nprocs, deadline, getattr(mod, "WORKER_ENV", None))
+    mc = getattr(mod, "MEMCHECK", None)
+    if mc and tier == "thorough":
+        ctx.auto_record = (max(1, mc.get("requests", 150) // nprocs + 1), mc.get("stride", 25))
     try:
         if hasattr(mod, "setup"):
             mod.setup(ctx)
@@ -319,6 +331,21 @@ def run_property(prop_id, tier, seed, nprocs=None, budget=None):
     merged = merge(results)
     if hasattr(mod, "finalize"):
         mod.finalize(merged, tier)
+    if tier == "thorough" and getattr(mod, "MEMCHECK", None):
+        # valgrind memcheck over a sample of the recorded workload (plain verif build; sees the C code
+        # of the FFI codecs too). Three-valued: report -> violation, tool failure -> noted, never a violation.
+        try:
+            from . import sanitize
+            reqs = list(merged.get("recorded", []))[:mod.MEMCHECK.get("requests", 150)]
+            if reqs:
+                res = sanitize.memcheck_replay(reqs, prop_id, timeout=mod.MEMCHECK.get("timeout", 2400))
+                merged["sanitizers"]["memcheck"] = {k: v for k, v in res.items() if k != "stderr"}
+                if res["status"] == "report":
+                    merged["violations"]["memcheck:%s@%s" % (res["kind"][:60], res.get("location", "?"))] = {
+                        "count": res.get("reports", 1), "detail": {"stderr": res.get("stderr")},
+                        "case": {"requests": reqs}, "index": None, "proc": None}
+        except Exception as e:
+            merged["sanitizers"]["memcheck_error"] = "%s: %s" % (type(e).__name__, e)
     if hasattr(mod, "post_run"):
         # sanitizer tiers etc.: may add violations (sig -> record) and evidence to `merged`
         try:
